@@ -13,6 +13,15 @@ M = {
    "						Src:     Addr{Scheme: tname, Addr: m.Src},\n						Dst:     Addr{Scheme: tname, Addr: m.Dst},", "						Src:     Addr{Scheme: tname, Addr: m.Dst},\n						Dst:     Addr{Scheme: tname, Addr: m.Src},")],
  "c01-mbapp-last-part-offset": [("p/mbapp/fragment.go",
    "		offset = len(c.buf) - len(data)", "		offset = len(data) * partIndex")],
+ "c10-frag-aggkey-without-addr": [("s/fragswarm/fragswarm.go",
+   "	key := aggKey{addr: keyForAddr(x.Src), id: id}", "	key := aggKey{id: id}")],
+ "c10-mbapp-allset-off-by-one": [("p/mbapp/bitmap.go",
+   "	for i := 0; i < l; i++ {\n		if !bm.get(i) {", "	for i := 0; i < l-1; i++ {\n		if !bm.get(i) {")],
+ "c10-mbapp-collector-ignores-remote": [("p/mbapp/fragment.go",
+   "	cid := collectorID{Remote: remote.String(), GroupID: gid}", "	cid := collectorID{GroupID: gid}")],
+ "c10-frag-addpart-completes-on-count": [("s/fragswarm/fragswarm.go",
+   "	a.parts[int(part)] = append([]byte{}, data...)\n	for i := range a.parts {\n		if a.parts[i] == nil {\n			return false\n		}\n	}\n	return true", "	a.parts[int(part)] = append([]byte{}, data...)\n	a.n++\n	return a.n == len(a.parts)"),
+   ("s/fragswarm/fragswarm.go", "	createdAt time.Time\n	parts     [][]byte\n}", "	createdAt time.Time\n	parts     [][]byte\n	n         int\n}")],
  "c11-mbapp-reply-lookup-ignores-addr": [("p/mbapp/swarm.go",
    "	id := askID{GroupID: GroupID{Counter: counter, OriginTime: originTime}, Addr: dst.String()}", "	id := askID{GroupID: GroupID{Counter: counter, OriginTime: originTime}}"),
    ("p/mbapp/swarm.go", "		GroupID: id,\n		Addr:    src.String(),", "		GroupID: id,")],
